@@ -1,4 +1,4 @@
-from props.common import vault_obligations, TRUSTED as _T
+from props.common import vault_obligations, krow_obligations, ktab_obligations, TRUSTED as _T
 
 PROPERTY = "C02"
 EXPLANATION = (
@@ -9,4 +9,4 @@ EXPLANATION = (
 OUTSIDE = "text serialisation and re-parsing by real lxml and Document.save/reload (done concretely in replays only)"
 ASSUMPTIONS = ["pre-states are run-length encodings with repeats >= 1 whose maps equal make_cache_map(XML)"]
 TRUSTED = _T
-OBLIGATIONS = vault_obligations(2)
+OBLIGATIONS = vault_obligations(2) + krow_obligations(2) + ktab_obligations(2, 60, 'rd')
